@@ -57,6 +57,45 @@ def utils_IntMin (a : Int) (b : Int) : Option Int := do
 def utils_GetHmsBySeconds (second : Int) : Option GoSem.HMS := do
   pure ({ Hour := (GoSem.u8 (Int.tdiv second 3600)), Minute := (GoSem.u8 (Int.tmod (Int.tdiv second 60) 60)), Second := (GoSem.u8 (Int.tmod second 60)) } : GoSem.HMS)
 
+/-- utils/funcs.go:53 -/
+def utils_MonthListIsValid (list : (List Int)) : Option Bool := do
+  let _r1 ← GoSem.forRange list (fun v => do
+      if (!((decide (v > 0)) && (decide (v < 13)))) then
+        pure (some false)
+      else
+        pure none
+    )
+  match _r1 with
+  | some _v => pure _v
+  | none =>
+    pure true
+
+/-- utils/funcs.go:62 -/
+def utils_DayListIsValid (list : (List Int)) : Option Bool := do
+  let _r1 ← GoSem.forRange list (fun v => do
+      if (!((decide (v > 0)) && (decide (v < 40)))) then
+        pure (some false)
+      else
+        pure none
+    )
+  match _r1 with
+  | some _v => pure _v
+  | none =>
+    pure true
+
+/-- utils/funcs.go:71 -/
+def utils_WeekDayListIsValid (list : (List Int)) : Option Bool := do
+  let _r1 ← GoSem.forRange list (fun v => do
+      if (!((decide (v ≥ 0)) && (decide (v < 7)))) then
+        pure (some false)
+      else
+        pure none
+    )
+  match _r1 with
+  | some _v => pure _v
+  | none =>
+    pure true
+
 /-- hms.go:35 -/
 def lib_GetTotalSeconds (hms : GoSem.HMS) : Option Int := do
   pure ((((hms).Hour * 3600) + ((hms).Minute * 60)) + (hms).Second)
@@ -69,6 +108,21 @@ def lib_GetFloatHour (hms : GoSem.HMS) : Option Rat := do
 def lib_FloatHourToHMS (fh : Rat) : Option GoSem.HMS := do
   let total := (GoSem.ftoi ((Rat.floor ((fh * ((3600 : Rat) / 1)) + ((1 : Rat) / 2)) : Int) : Rat))
   pure ({ Hour := (GoSem.u8 (Int.tdiv total 3600)), Minute := (GoSem.u8 (Int.tmod (Int.tdiv total 60) 60)), Second := (GoSem.u8 (Int.tmod total 60)) } : GoSem.HMS)
+
+/-- date.go:49 -/
+def lib_toUint8 (v : Int) : Option Int := do
+  if ((decide (v < 0)) || (decide (v > 255))) then
+    pure 255
+  else
+    pure (GoSem.u8 v)
+
+/-- hms.go:43 -/
+def lib_HMS_IsValid (hms : GoSem.HMS) : Option Bool := do
+  pure (((decide ((hms).Hour < 24)) && (decide ((hms).Minute < 60))) && (decide ((hms).Second < 60)))
+
+/-- date.go:43 -/
+def lib_Date_IsValid (date : GoSem.Date) : Option Bool := do
+  pure ((((decide ((date).Month > 0)) && (decide ((date).Month < 13))) && (decide ((date).Day > 0))) && (decide ((date).Day < 40)))
 
 /-- interval/interval.go:171 -/
 def interval_Less (p : (List interval_IntervalPoint)) (i : Int) (j : Int) : Option Bool := do
@@ -473,6 +527,6 @@ def hijri_GetMonthLen (year : Int) (month : Int) : Option Int := do
       pure 29
 
 /-- the functions translated on this run -/
-def translated : List String := ["utils_Mod", "utils_Div", "utils_Divmod", "utils_IntMin", "utils_GetHmsBySeconds", "lib_GetTotalSeconds", "lib_GetFloatHour", "lib_FloatHourToHMS", "interval_Less", "julian_IsLeap", "julian_getYearDays", "julian_getMonthDayFromYdays", "julian_ToJd", "julian_JdTo", "julian_GetMonthLen", "jalali_IsLeap", "jalali_getMonthDayFromYdays", "jalali_ToJd", "jalali_JdTo", "jalali_GetMonthLen", "ethiopian_IsLeap", "ethiopian_ToJd", "ethiopian_JdTo", "ethiopian_GetMonthLen", "gprol_IsLeap", "gprol_ToJd", "gprol_JdTo", "gprol_GetMonthLen", "indian_IsLeap", "indian_ToJd", "indian_JdTo", "indian_GetMonthLen", "hijri_IsLeap", "hijri_ToJd", "hijri_JdTo", "hijri_GetMonthLen"]
+def translated : List String := ["utils_Mod", "utils_Div", "utils_Divmod", "utils_IntMin", "utils_GetHmsBySeconds", "utils_MonthListIsValid", "utils_DayListIsValid", "utils_WeekDayListIsValid", "lib_GetTotalSeconds", "lib_GetFloatHour", "lib_FloatHourToHMS", "lib_toUint8", "lib_HMS_IsValid", "lib_Date_IsValid", "interval_Less", "julian_IsLeap", "julian_getYearDays", "julian_getMonthDayFromYdays", "julian_ToJd", "julian_JdTo", "julian_GetMonthLen", "jalali_IsLeap", "jalali_getMonthDayFromYdays", "jalali_ToJd", "jalali_JdTo", "jalali_GetMonthLen", "ethiopian_IsLeap", "ethiopian_ToJd", "ethiopian_JdTo", "ethiopian_GetMonthLen", "gprol_IsLeap", "gprol_ToJd", "gprol_JdTo", "gprol_GetMonthLen", "indian_IsLeap", "indian_ToJd", "indian_JdTo", "indian_GetMonthLen", "hijri_IsLeap", "hijri_ToJd", "hijri_JdTo", "hijri_GetMonthLen"]
 
 end Starcal.Gen.Src
